@@ -29,9 +29,11 @@ ASSUMPTIONS = [
 WATCHDOG_S = {"quick": 900, "thorough": 7200}
 
 HDLC_PATTERNS = ("all_flags", "flag_short_junk", "flag_lone_escape", "valid_frames", "never_ending_frame", "random_bytes", "overlong_frame_then_flags",
-                 "single_flag_between_frames", "escaped_pairs_forever", "escape_fill_forever", "valid_frames_with_segmentation_bit", "tiny_length_header_then_frames", "valid_frames_from_ever_changing_stations")
+                 "single_flag_between_frames", "escaped_pairs_forever", "escape_fill_forever", "valid_frames_with_segmentation_bit", "tiny_length_header_then_frames", "valid_frames_from_ever_changing_stations", "smallest_valid_frames_back_to_back")
 P1_PATTERNS = ("ident_lines_without_end", "slash_without_lf", "ident_then_endless_data", "valid_readouts", "random_ascii", "random_bytes", "text_without_slash_and_lf",
-               "slashes_without_lf", "slash_words_without_lf", "ident_then_no_lf", "varying_slash_lines", "growing_valid_readouts_then_endless_data", "ident_then_blank_lines", "ident_then_blank_and_data_lines")
+               "slashes_without_lf", "slash_words_without_lf", "ident_then_no_lf", "varying_slash_lines", "growing_valid_readouts_then_endless_data", "ident_then_blank_lines", "ident_then_blank_and_data_lines", "smallest_readouts_some_with_a_wrong_checksum")
+QUIESCENT_PATTERNS = ("valid_frames", "single_flag_between_frames", "valid_frames_with_segmentation_bit", "smallest_valid_frames_back_to_back", "valid_frames_from_ever_changing_stations",
+                      "valid_readouts", "smallest_readouts_some_with_a_wrong_checksum")
 CHUNKS = (1, 64, 4096, 65536, "delim1", "delim7")  # delimN: a call ends right after every N-th LF (P1) / flag (HDLC)
 
 
@@ -84,6 +86,12 @@ def make_stream(rng, reader: str, cfg, pattern: str, total: int) -> bytes:
             frames = [_h.build(0xA, True, _h.address(rng, 1), _h.address(rng, 1), rng.randrange(256), ids.next() + rng.randbytes(rng.randint(1, 60))) for _ in range(300)]
             unit = b"\x7e" + b"\x7e".join(hdlc_gen.on_wire(f, cfg[0]) for f in frames) + b"\x7e"
             return (unit * (total // len(unit) + 1))[:total]
+        if pattern == "smallest_valid_frames_back_to_back":
+            # header-only frames (7 octets) sharing one flag: more than 8 000 complete frames in every 64 KiB call
+            from vf.ref import hdlc_ref as _h
+
+            unit = b"".join(hdlc_gen.on_wire(_h.build(0xA, False, _h.address(rng, 1), _h.address(rng, 1), rng.randrange(256), b""), cfg[0]) + b"\x7e" for _ in range(500))
+            return (b"\x7e" + unit * (total // len(unit) + 1))[:total]
         if pattern == "valid_frames_from_ever_changing_stations":
             # intact frames of every kind (information, supervisory, unnumbered: any control octet) whose addresses never repeat
             from vf.ref import hdlc_ref as _h
@@ -148,6 +156,14 @@ def make_stream(rng, reader: str, cfg, pattern: str, total: int) -> bytes:
         unit = b"".join(p1_gen.data_line(rng) + b"\r\n" for _ in range(400))
         out += p1_ref.strict_ident(rng)[0] + b"\r\n" + unit * ((total - len(out)) // len(unit) + 1)
         return bytes(out[:total])
+    if pattern == "smallest_readouts_some_with_a_wrong_checksum":
+        # the shortest readouts there are (identification line + end line), every fiftieth with a checksum that does not match
+        units = []
+        for k in range(400):
+            r = p1_ref.build_readout(p1_ref.strict_ident(rng, with_id=False)[0], [], b"\r\n", "correct", False)
+            units.append(r if k % 50 else p1_gen.with_checksum_text(r, b"0000" if p1_gen.correct_checksum(r) else b"0001"))
+        unit = b"".join(units)
+        return (unit * (total // len(unit) + 1))[:total]
     if pattern in ("ident_then_blank_lines", "ident_then_blank_and_data_lines"):
         eol = rng.choice((b"\r\n", b"\n"))
         if pattern == "ident_then_blank_lines":
@@ -229,6 +245,16 @@ def one_run(spec: dict, ctx) -> None:
             f"deep size {max(s for _, s in over)} bytes > bound {bound} (const {const} + 3 x chunk {chunk}); first exceeded after call {i} ({(i + 1) * chunk} bytes fed) of {n_calls}",
             case,
         )
+    # at quiescent points the reader is in the same logical state again and again: for streams of complete messages fed message by
+    # message (a call ends right after every delimiter) the size after a call may wobble with the partial message it holds, but its
+    # *minimum* over a window must not creep up - one bit per message is a leak too
+    if isinstance(chunk_label, str) and spec["pattern"] in QUIESCENT_PATTERNS and len(samples) >= 40:
+        tenth = max(4, len(samples) // 10)
+        low_first = min(s for _, s in samples[:tenth])
+        low_last = min(s for _, s in samples[-tenth:])
+        ctx.count("runs_judged_at_quiescent_points")
+        if low_last > low_first + 256:
+            ctx.violation(f"C19:creeping:{label}", f"smallest deep size over the first tenth of the run {low_first} bytes, over the last tenth {low_last} bytes ({n_calls} calls ending at message boundaries): the reader at rest keeps growing", case)
     half = len(samples) // 2
     first, second = max(s for _, s in samples[:half] or samples), max(s for _, s in samples[half:])
     # (the floor is what one desynchronised maximum-length message may legitimately occupy: frame + raw copy of 2047 octets for HDLC,
